@@ -29,8 +29,31 @@ type Shared struct {
 	State   state.State
 	PeerSet []peer.ID
 	Log     []LogCall
-	// FailLog, when set, makes LogPin/LogUnpin fail (no effect).
+	// FailLog, when set, makes LogPin/LogUnpin fail (no effect): every call,
+	// or with FailNth > 0 only the FailNth-th call counted from the moment
+	// FailNth was set (SetFailNth).
 	FailLog error
+	FailNth int
+	nLog    int
+}
+
+// SetFailNth arms the failure of the n-th LogPin/LogUnpin from now on (0: off).
+func (s *Shared) SetFailNth(n int, err error) {
+	s.mu.Lock()
+	s.FailNth, s.nLog, s.FailLog = n, 0, err
+	s.mu.Unlock()
+}
+
+// failNow is called with mu held at the start of every LogPin/LogUnpin.
+func (s *Shared) failNow() error {
+	if s.FailLog == nil {
+		return nil
+	}
+	s.nLog++
+	if s.FailNth > 0 && s.nLog != s.FailNth {
+		return nil
+	}
+	return s.FailLog
 }
 
 // NewShared creates an empty shared pinset.
@@ -101,8 +124,7 @@ func (m *MemConsensus) Leader(context.Context) (peer.ID, error) {
 
 func (m *MemConsensus) LogPin(ctx context.Context, p *api.Pin) error {
 	m.S.mu.Lock()
-	if m.S.FailLog != nil {
-		err := m.S.FailLog
+	if err := m.S.failNow(); err != nil {
 		m.S.mu.Unlock()
 		return err
 	}
@@ -120,8 +142,7 @@ func (m *MemConsensus) LogPin(ctx context.Context, p *api.Pin) error {
 
 func (m *MemConsensus) LogUnpin(ctx context.Context, p *api.Pin) error {
 	m.S.mu.Lock()
-	if m.S.FailLog != nil {
-		err := m.S.FailLog
+	if err := m.S.failNow(); err != nil {
 		m.S.mu.Unlock()
 		return err
 	}
